@@ -133,6 +133,13 @@ def obligations(tier, rng):
                               pastify=True))
     out.append(ob('C10', 'dt', 'dt/pastified/%s/k=2/resets=2' % text(('eventually_t', X, 0, 2)), f=('eventually_t', X, 0, 2), k=2, m=m + 1, pastify=True, rounds=2))
     out.append(ob('C10', 'dt', 'dt/subspec/p=prev(x)/out=(p) and (z)/k=2/resets=2', f=('and', Pn, Z), defs=[['p', ('prev', X)]], k=2, m=m, rounds=2))
+    # stateful operators BELOW comparison and arithmetic nodes (the grammar has one flat expression rule): the reset must reach them
+    from .c02 import STATEFUL
+    C1 = ('const', 1.0)
+    for g in STATEFUL:
+        for f in [('leq', ('sub', X, g), C1), ('geq', g, Y), ('historically', ('leq', g, Y)), ('gt', ('add', ('abs', g), Y), C1), ('eq', Y, ('neg', g))]:
+            for k in ([2] if quick else [1, 3]):
+                out.append(ob('C10', 'dt', 'dt/below-predicate/%s/k=%d' % (text(f), k), f=f, k=k, m=m))
     from .. import pool
     for i, g in enumerate(pool.ALL):
         fut = refsem.has_future(g)
